@@ -221,3 +221,41 @@ def c07_event(run, d, app_specs):
             ev.update({"ipMapped": True, "ipRel": ip - s, "mapLen": e - s, "winKnown": (e - s) < (1 << 30),
                        "winGot": [[r["start"] - s, r["size"]] for r in regs if s - 256 <= r["start"] <= e]})
     return ev
+
+
+def c04_spin_events(run, d):
+    """Spinner threads: counter in rbx, at [rsp] and in an application word (region `cnt<slot>`)."""
+    if d.get("outcome") != "ok":
+        return [{"ev": "failed", "origin": run["id"]}]
+    evs = []
+    report = run["report"]
+    stacks = {s["tid"]: s for s in d.get("stack_bytes", [])}
+    small = {m["start"]: m["hex"] for m in d.get("mem_small", [])}
+    for slot, t in enumerate(report["threads"]):
+        if t.get("mode") != "spin":
+            continue
+        th = next((x for x in d["streams"]["threads"]["threads"] if x["tid"] == t["tid"]), None)
+        if th is None or th["tid"] not in stacks:
+            continue
+        reg = int(th["ctx"]["rbx"], 16)
+        sp = int(th["ctx"]["rsp"], 16)
+        sb = stacks[th["tid"]]
+        off = sp - sb["start"]
+        word = int.from_bytes(bytes.fromhex(sb["hex"][2 * off:2 * off + 16]), "little")
+        cnt = report["regions"].get(f"cnt{slot}", {}).get("addr")
+        if cnt not in small:
+            continue
+        app = int.from_bytes(bytes.fromhex(small[cnt])[:8], "little")
+        base = min(reg, word, app)
+        evs.append({"ev": "c04s", "origin": run["id"], "tid": t["tid"], "reg": reg - base, "stackWord": word - base, "appWord": app - base, "abs": reg})
+    # order of tracer steps
+    steps = d["steps"]
+    idx = {k: next((i for i, s in enumerate(steps) if s.get("p") == k), None) for k in ("suspended", "dump:streams_done", "resume:begin")}
+    if idx["suspended"] is not None and idx["dump:streams_done"] is not None:
+        a, b = idx["suspended"], idx["dump:streams_done"]
+        det = sum(1 for s in steps[a:b] if s.get("p") == "detach:before")
+        # destination writes after resume are fine (soft-error stream); flushes of target-reading streams are all before streams_done by construction of the hook
+        last_flush_idx = max((i for i, s in enumerate(steps) if s.get("p") == "flush"), default=0)
+        flushes_after = sum(1 for s in steps[idx["resume:begin"]:] if s.get("p") == "flush") if idx["resume:begin"] is not None else 0
+        evs.append({"ev": "c04o", "origin": run["id"], "detachesBeforeLastRead": det, "streamsAfterResume": max(0, flushes_after - 1)})
+    return evs
